@@ -28,7 +28,11 @@ func genFields(r *kit.Rng, n int, kinds []uint8, varLast bool) []Field {
 		if varLast && i == n-1 && r.Chance(1, 2) {
 			k = kit.Pick(r, []uint8{7, 8})
 		}
-		out = append(out, Field{perm[i], k})
+		f := Field{N: perm[i], K: k}
+		if (k == 7 || k == 8) && r.Chance(1, 2) {
+			f.Max = kit.Pick(r, []uint16{10, 100})
+		}
+		out = append(out, f)
 	}
 	return out
 }
@@ -54,9 +58,9 @@ func genWS(r *kit.Rng, wi int, small bool) WS {
 	}
 	// an object and an odoc are always there so that functions have argument candidates
 	ws.Tables = append(ws.Tables,
-		Table{Name: p + "Obj1", Kind: "object", Fields: []Field{{"x", 3}, {"y", 8}}},
+		Table{Name: p + "Obj1", Kind: "object", Fields: []Field{{N: "x", K: 3}, {N: "y", K: 8}}},
 		Table{Name: p + "Obj2", Kind: "object", Fields: genFields(r, 1+r.Intn(3), anyKinds, false)},
-		Table{Name: p + "Obj3", Kind: "object", Fields: []Field{{"x", 3}, {"y", 8}}}, // same fields as Obj1
+		Table{Name: p + "Obj3", Kind: "object", Fields: []Field{{N: "x", K: 3}, {N: "y", K: 8}}}, // same fields as Obj1
 		Table{Name: p + "ODoc", Kind: "odoc", Fields: genFields(r, r.Intn(3), anyKinds, false)})
 	// containers: parent -> a record type of the matching family
 	for i := range ws.Tables {
@@ -112,6 +116,11 @@ func genSchema(r *kit.Rng) *Schema {
 	for i := 0; i < nws; i++ {
 		s.WSs = append(s.WSs, genWS(r, i, small))
 	}
+	// sometimes a second application package with a type of its own
+	if r.Chance(1, 3) {
+		s.Pkgs = []string{"lib"}
+		s.WSs[0].Tables = append(s.WSs[0].Tables, Table{Pkg: "lib", Name: "LibDoc", Kind: "cdoc", Fields: []Field{{N: "a", K: 3}, {N: "s", K: 8, Max: 100}}})
+	}
 	return s
 }
 
@@ -147,6 +156,9 @@ func enumerate(r *kit.Rng, s *Schema) []Edit {
 			l          []Field
 		}{}
 		for _, t := range ws.Tables {
+			if t.Pkg != "" {
+				continue
+			}
 			lists = append(lists, struct {
 				name, part string
 				l          []Field
@@ -193,6 +205,18 @@ func enumerate(r *kit.Rng, s *Schema) []Edit {
 				for j := i + 1; j < len(fl.l); j++ {
 					out = append(out, Edit{Kind: "swap_fields", WS: wi, Name: fl.name, Part: fl.part, I: i, J: j})
 				}
+				// variable-length fields: kind change under a kept MaxLen constraint (anonymous data types on
+				// both sides), and constraint-only changes
+				if k := fl.l[i].K; (k == 7 || k == 8) && fl.part != "pk" {
+					if fl.l[i].Max > 0 {
+						out = append(out, Edit{Kind: "change_kind", WS: wi, Name: fl.name, Part: fl.part, I: i, K: 15 - k, Trans: "constrained"})
+					}
+					for _, m := range []int{0, 10, 100} {
+						if uint16(m) != fl.l[i].Max {
+							out = append(out, Edit{Kind: "change_maxlen", WS: wi, Name: fl.name, Part: fl.part, I: i, J: m})
+						}
+					}
+				}
 			}
 		}
 		// new types whose names sort before / between / after the existing ones
@@ -202,9 +226,19 @@ func enumerate(r *kit.Rng, s *Schema) []Edit {
 				Edit{Kind: "add_view", WS: wi, New: nm},
 				Edit{Kind: "add_fn", WS: wi, New: nm, K: uint8(r.Intn(2)), To: p + "Obj1"})
 		}
+		for _, pn := range []string{"aaa", "zzz"} {
+			out = append(out, Edit{Kind: "add_pkg_table", WS: wi, To: pn, New: "PDoc"})
+		}
 		for _, t := range ws.Tables {
+			if t.Pkg != "" {
+				continue
+			}
 			if !s.referenced(t.Name) {
 				out = append(out, Edit{Kind: "remove_type", WS: wi, Name: t.Name})
+				out = append(out, Edit{Kind: "table_to_view", WS: wi, Name: t.Name})
+				if flip := map[string]string{"cdoc": "wdoc", "wdoc": "cdoc", "crecord": "wrecord", "wrecord": "crecord", "odoc": "cdoc"}[t.Kind]; flip != "" && len(t.Conts) == 0 {
+					out = append(out, Edit{Kind: "table_kind", WS: wi, Name: t.Name, TK: flip})
+				}
 			}
 			for i, c := range t.Conts {
 				out = append(out, Edit{Kind: "remove_container", WS: wi, Name: t.Name, I: i})
@@ -268,6 +302,20 @@ func isCompatKind(k string) bool {
 		return true
 	}
 	return false
+}
+
+func perms(l []*Node) [][]*Node {
+	if len(l) <= 1 {
+		return [][]*Node{append([]*Node{}, l...)}
+	}
+	var out [][]*Node
+	for i := range l {
+		rest := append(append([]*Node{}, l[:i]...), l[i+1:]...)
+		for _, p := range perms(rest) {
+			out = append(out, append([]*Node{l[i]}, p...))
+		}
+	}
+	return out
 }
 
 // ---- one case ----
@@ -386,10 +434,42 @@ func runCase(s *Schema, e Edit) (c kit.Case, ok bool, err error) {
 		ignTerms = append(ignTerms, fmt.Sprintf("mkerr %d %s %s", uint8(ce.Constraint), pr.path(ce.OldTreePath), et))
 		d.Ignored = append(d.Ignored, ce.Error())
 	}
+	// Packages children come from a Go map: the order the real call used is unknown. When the package
+	// lists differ, the trace carries every ordering of both lists; `agrees` accepts the observed errors if the
+	// model produces them for one of them.
+	var orderTerms []string
+	op, np := oldT.find([]string{ac.NodeNameAppDef, ac.NodeNamePackages}), newT.find([]string{ac.NodeNameAppDef, ac.NodeNamePackages})
+	if op != nil && np != nil && op.firstDiff(np, nil) != nil && len(op.Props) <= 3 && len(np.Props) <= 4 {
+		tagset["packages:changed"] = true
+		for _, po := range perms(op.Props) {
+			for _, pn := range perms(np.Props) {
+				var a, b []string
+				for _, x := range po {
+					a = append(a, x.ref(pr))
+				}
+				for _, x := range pn {
+					b = append(b, x.ref(pr))
+				}
+				orderTerms = append(orderTerms, "("+kit.List(a)+", "+kit.List(b)+")")
+			}
+		}
+	}
+	// tag only the C18-PKG behaviour produces: a purely additive edit whose only reports sit at AppDef/Packages
+	if claim.Kind == "additive" && len(cerrs.Errors) > 0 {
+		only := true
+		for _, ce := range cerrs.Errors {
+			if strings.Join(ce.OldTreePath, "/") != ac.NodeNameAppDef+"/"+ac.NodeNamePackages {
+				only = false
+			}
+		}
+		if only {
+			tagset["C18-PKG:new-package-flagged"] = true
+		}
+	}
 	var sb strings.Builder
 	claimTerm := claim.coq(pr)
 	sb.WriteString(strings.Join(pr.lets, " "))
-	sb.WriteString(" mkTrace " + oldRef + " " + newRef + " " + claimTerm + " " + kit.List(terms) + " " + kit.List(ignTerms) + " " + kit.List(diffTerms))
+	sb.WriteString(" mkTrace " + oldRef + " " + newRef + " " + claimTerm + " " + kit.List(terms) + " " + kit.List(ignTerms) + " " + kit.List(diffTerms) + " " + kit.List(orderTerms))
 	var tags []string
 	for t := range tagset {
 		tags = append(tags, t)
@@ -399,7 +479,11 @@ func runCase(s *Schema, e Edit) (c kit.Case, ok bool, err error) {
 	if e.Part != "" || e.Kind == "remove_container" {
 		pos = fmt.Sprintf("%d.%d", e.I, e.J)
 	}
-	key := fmt.Sprintf("%s|%s|%s|%s|o%d|n%d|e%d", e.Kind, e.Part, pos, claim.Kind, d.OldNodes, d.NewNodes, len(cerrs.Errors))
+	nerr := len(cerrs.Errors)
+	if e.Kind == "add_pkg_table" {
+		nerr = 0 // NodeInserted appears or not with the map order: keep the shape key stable
+	}
+	key := fmt.Sprintf("%s|%s|%s|%s|o%d|n%d|e%d", e.Kind, e.Part+e.Trans, pos, claim.Kind, d.OldNodes, d.NewNodes, nerr)
 	return kit.Case{Coq: sb.String(), Key: key, Nontrivial: e.Kind != "self", Desc: d, Tags: tags}, true, nil
 }
 
